@@ -3,6 +3,7 @@ package controllerv1
 import (
 	"context"
 	"encoding/json"
+	"fmt"
 	retry "github.com/avast/retry-go"
 	"github.com/metrico/qryn/writer/config"
 	customErrors "github.com/metrico/qryn/writer/utils/errors"
@@ -12,6 +13,7 @@ import (
 	"github.com/metrico/qryn/writer/utils/stat"
 	"io"
 	"net/http"
+	"runtime/debug"
 	"strings"
 	"time"
 
@@ -160,6 +162,13 @@ func doPush(req helpers.SizeGetter, insertMode int, svc service.IInsertServiceV2
 	retryDelay := time.Duration(config.Cloki.Setting.SYSTEM_SETTINGS.RetryTimeoutS) * time.Second
 	// Use the retry-go library to attempt the request up to MaxRetries times.
 	go func() {
+		// nothing above this goroutine recovers: a panic in an insert service would end the process
+		defer func() {
+			if rec := recover(); rec != nil {
+				logger.Error(rec, " stack:", string(debug.Stack()))
+				p.Done(0, fmt.Errorf("panic: %v", rec))
+			}
+		}()
 		err := retry.Do(
 			func() error {
 				//req.ResetResponse()
